@@ -567,6 +567,9 @@ func c11Classify(c c11Case) (bool, []string) {
 			if T != 0 {
 				lab["sub:time-travel"] = true
 			}
+			if q.Depth >= 5 && len(a.reach(q.Src, "both", 5)) > len(a.reach(q.Src, "both", 4)) {
+				lab["sub:node-at-depth-5"] = true
+			}
 			r := a.reach(q.Src, "both", c11Clamp5(q.Depth))
 			if len(r) < len(a.reach(q.Src, "both", c11Inf-1)) {
 				lab["sub:depth-cuts-nodes"] = true
@@ -586,6 +589,9 @@ func c11Classify(c c11Case) (bool, []string) {
 				if len(a.reach(q.Src, dir, q.Depth)) > len(a.reach(q.Src, dir, 5)) {
 					lab["search:clamp-cuts-nodes"] = true
 				}
+			}
+			if q.Depth >= 5 && len(a.reach(q.Src, dir, 5)) > len(a.reach(q.Src, dir, 4)) {
+				lab["search:node-at-depth-5"] = true
 			}
 			r := a.reach(q.Src, dir, c11Clamp5(q.Depth))
 			if len(r) < len(a.reach(q.Src, dir, c11Inf-1)) {
